@@ -1137,7 +1137,10 @@ func (e *c19Env) injectStream() {
 	corpus := []string{`{}`, `{ }`, "{\n}", " {\t} ", `{"a":1}`, `{ "a":1 }`, ` {"a":1} `, "\n{\"a\":{\"b\":[1,2,{}]},\"c\":\"}\"}\r\n", `{"a":"{"}`,
 		`[]`, `[{}]`, `"{}"`, `{`, `}`, ``, ` `, `{}x`, `x{}`, `{"a":1}}`, `{{}`, "\x0b{}\x0c", " {} ", " {\"a\":1}\u3000", "\u0085{}", "{}\u00a0",
 		"\xc2{}", "{}\xa0", "\xe2\x80{}", "{}\xe2\x80", "{\u00a0}", "{\x0b}", `null`, `{"a":1,}`, `{,}`, `{"_id":"old"}`, "\u200b{}", "{}\u200b", "\u202f{}\u205f",
-		"\u1680{}\u2000", "\u200a{}\u2028", "\u2029 {}", "{}\xe2\x80\x80\x80", "\xe2\xc2\x85{}", "{}\x85", "{}\xc2"}
+		"\u1680{}\u2000", "\u200a{}\u2028", "\u2029 {}", "{}\xe2\x80\x80\x80", "\xe2\xc2\x85{}", "{}\x85", "{}\xc2",
+		// duplicate names (kept, the injected ones follow), injected names already present, blanks and bytes after the object
+		`{"a":1,"a":2}`, `{"_id":"u","a":1,"_id":"v"}`, `{"_rev":"9-z","_deleted":false}`, "{\"a\":1} \n\t\r ", "{\"a\":1}\n\n", `{"a":1} x`, `{"a":1}{"b":2}`,
+		`{"a":1}}`, `{"a":1}]`, `{"a":1} {`, `{"a":1},`, "{\"a\":1}\x00", `{"a":1} }`, `{ } }`, `{}{}`}
 	for _, c := range corpus {
 		for _, kvs := range [][]base.KVPairBytes{nil, kvPool[:1], kvPool[:3], {kvPool[6], kvPool[7]}} {
 			e.injectCase("corpus", []byte(c), kvs)
